@@ -37,7 +37,7 @@ fn params(t: Tier) -> (usize, usize, usize) {
 }
 
 fn sources() -> Vec<Name> {
-    vec![nm("a"), nm("b.a"), nm("c.b.a"), nm("B.A"), nm("x"), nm("xa"), nm("b"), nm("a.a"), nm("zone.example"), nm("example.com")]
+    vec![nm("a"), nm("b.a"), nm("c.b.a"), nm("B.A"), nm("x"), nm("xa"), nm("b"), nm("a.a"), nm("zone.example"), nm("example.com"), name_from_labels(&[b"x[y", b"a"]), name_from_labels(&[b"x{y", b"a"])]
 }
 
 fn targets() -> Vec<Name> {
@@ -201,6 +201,18 @@ fn l5() -> Vec<Vec<u8>> {
     m.ar.push(mx_rec(&with_a, 1, 1, &nm("a")));
     v.push(encode(&m, Strategy::Max));
     v.push(encode(&m, Strategy::Plain));
+    // names differing only in bit 5 of a non-letter byte must not be taken for case variants
+    {
+        let n1 = name_from_labels(&[b"x[y", b"a"]);
+        let n2 = name_from_labels(&[b"x{y", b"a"]);
+        let n3 = name_from_labels(&[b"X[Y", b"A"]);
+        let mut m = base_msg(&n1, T_A, true);
+        m.an.push(name_rec(&n2, T_CNAME, 1, &n3));
+        m.an.push(mx_rec(&n3, 1, 1, &n2));
+        m.ns.push(soa_rec(&nm("a"), 1, &n1, &n2));
+        v.push(encode(&m, Strategy::Max));
+        v.push(encode(&m, Strategy::Plain));
+    }
     let al = aligned_pointer_packets();
     v.push(al[4].clone());
     v.push(al[5].clone());
